@@ -130,6 +130,8 @@ def show(e, top: bool = False) -> str:
         s = " | ".join(show(x) for x in e[1])
         return s if top else f"({s})"
     inner = show(e[1])
+    if e[1][0] in ("opt", "rep"):
+        inner = f"({inner})"
     if k == "opt":
         return inner + "?"
     return f"{inner}{{{e[2]},{e[3]}}}" if e[2] != e[3] else f"{inner}{{{e[2]}}}"
@@ -271,6 +273,9 @@ def scenarios_for(info: dict, rng, tier: str) -> list[dict]:
     for mode, fault in base:
         out.append({"mode": mode, "fault": list(fault) if fault else None, "seed": rng.randrange(1 << 30),
                     "p_reply_in_send": rng.choice([0.0, 0.5, 1.0]), "p_unsolicited": rng.choice([0.0, 0.1, 0.3])})
+    # chatty peers: whoever may speak does so at every delivery point, so data of several senders / several
+    # messages sits in the buffer while an extraction reads
+    out.append({"mode": "eager", "fault": None, "seed": rng.randrange(1 << 30), "p_reply_in_send": 1.0, "p_unsolicited": 1.0})
     return out
 
 
@@ -583,6 +588,7 @@ def replay(path: str) -> int:
     from harness.impl.grammar_io import grammar_to_json, parse_spec
     from harness.impl import io_world
     import warnings
+    io_world.install()
     with warnings.catch_warnings():
         warnings.simplefilter("ignore")
         grammar, _ = parse_spec(job["spec"])
